@@ -67,7 +67,7 @@ def pointee(t):
 
 class Fn:
     # functions that report and exit: the run ends with this (negative) code
-    NORETURN = {"temp_read": -2, "perm_partialline": -3, "straynewline": -4, "temp_nomem": -5, "resources": -6, "badproto": -7, "die_nomem": -5}
+    NORETURN = {"temp_read": -2, "perm_partialline": -3, "straynewline": -4, "temp_nomem": -5, "resources": -6, "badproto": -7, "die_nomem": -5, "_exit": -8}
     def __init__(self, node, alias, known, chk=False):
         self.node = node; self.name = alias; self.known = known; self.chk = chk
         self.structs = []       # names of pointer-to-struct parameters (their fields become variables/arrays on first use)
@@ -91,6 +91,9 @@ class Fn:
     # ---- declarations
     def declare(self, name, t, param=False):
         if name in self.vtype: return
+        if param and "(*)" in t:
+            # a function pointer parameter (substdio's op): calls through it are the read/write oracle; it has no value in the state
+            self.fnptrs = getattr(self, "fnptrs", []) + [name]; self.vtype[name] = t; return
         if is_ptr(t) and int_type(pointee(t)) is None and not is_ptr(pointee(t)):
             if not param: raise Unsupported("local pointer to a struct: " + name)
             self.vtype[name] = t; self.structs.append(name)                 # fields appear on use
@@ -461,6 +464,10 @@ class Fn:
                 x = a["inner"][0]
                 while x.get("kind") == "ParenExpr": x = x["inner"][0]
                 if x.get("kind") == "DeclRefExpr": return x["referencedDecl"]["name"]
+            # a file-scope substdio* (subfdinsmall, subfdoutsmall): the stream's lists are file-scope state under that name
+            if a.get("kind") == "DeclRefExpr" and a["referencedDecl"].get("kind") == "VarDecl" and a["referencedDecl"]["name"] not in self.vtype \
+               and strip_quals(qt(a)).replace(" ", "") in ("substdio*", "structsubstdio*"):
+                return a["referencedDecl"]["name"]
             # a substdio* / struct qmail* parameter: the stream's lists are parameters of run under the parameter's name
             if a.get("kind") == "DeclRefExpr" and a["referencedDecl"]["name"] in self.structs and a["referencedDecl"]["name"] not in getattr(self, "gstructs", []):
                 return a["referencedDecl"]["name"]
@@ -494,7 +501,62 @@ class Fn:
             lets = l + ["let %s := b2z %s in" % (r, avail),
                         "let %s := if %s then set_v_%s__pos (%s) (v_%s__pos %s + 1) else %s in" % (s2, avail, ss, upd, ss, s1, s1)]
             return lets, r, s2
-        if nm in ("substdio_put", "substdio_bput", "qmail_put"):
+        if nm in getattr(self, "fnptrs", []):
+            # op(fd,buf,len) on the output side: the k-th call answers from the k-th element e of the run parameter g_wr__script_:
+            # e >= 0: min(e + 1, len) bytes are accepted (appended to a_wr__out) and that number is returned; e = -1: -1 with errno = EINTR;
+            # e <= -2: -1 with errno = EIO; script exhausted: all len bytes are accepted
+            ensure("wr__script", True); ensure("wr__out", True); ensure("wr__n", False)
+            if "errno" not in self.vtype: self.vtype["errno"] = "int"; self.vars.append("errno")
+            l1, _, s1 = self.tr(args[0], s)
+            l2, base, off, s1 = self.ptr(args[1], s1)
+            if base is None: raise Unsupported("write from a null pointer")
+            l3, n, s1 = self.tr(args[2], s1)
+            ev = self.fresh("x"); w = self.fresh("x"); s2 = self.fresh()
+            lets = l1 + l2 + l3 + [
+                "let %s := if v_wr__n %s <? alen (a_wr__script %s) then rd (a_wr__script %s) (v_wr__n %s) else %s - 1 in" % (ev, s1, s1, s1, s1, n),
+                "let %s := if %s <? 0 then -1 else Z.min (%s + 1) %s in" % (w, ev, ev, n),
+                "let %s := set_v_errno (set_v_wr__n (set_a_wr__out %s (a_wr__out %s ++ firstn (Z.to_nat %s) (skipn (Z.to_nat %s) (a_%s %s)))) (v_wr__n %s + 1)) (if %s <? 0 then (if %s =? -1 then 4 else 5) else v_errno %s) in"
+                % (s2, s1, s1, w, off, base, s1, s1, ev, ev, s1)]
+            return lets, w, s2
+        if nm in ("chdir", "sig_pipeignore", "cleanuppid"):
+            # outside the translation: no effect on the translated state, success
+            return [], "(0)", s
+        if nm == "memcmp":
+            # -1 / 0 / 1 (the C function returns some negative / zero / some positive value; only its sign is meaningful)
+            def operand(a_, s_):
+                lit_ = self.str_literal(a_)
+                if lit_ is not None: return [], lit_, s_
+                l_, base_, off_, s_ = self.ptr(a_, s_)
+                if base_ is None: raise Unsupported("memcmp of a null pointer")
+                return l_, "(skipn (Z.to_nat %s) (a_%s %s))" % (off_, base_, s_), s_
+            l1, x1, s1 = operand(args[0], s); l2, x2, s1 = operand(args[1], s1); l3, n, s1 = self.tr(args[2], s1)
+            return l1 + l2 + l3, "(memcmpz (firstn (Z.to_nat %s) %s) (firstn (Z.to_nat %s) %s))" % (n, x1, n, x2), s1
+        if nm == "getln":
+            # getln(ss,&sa,&match,sep): the next line of the descriptor's input up to and including sep (match = 1), or what is left
+            # (match = 0); read errors are outside the stub
+            ss = io_struct(args[0]); ensure(ss + "__in", True); ensure(ss + "__pos", False)
+            sa = io_struct(args[1]); ensure(sa + "__s", True); ensure(sa + "__len", False)
+            m = self.addr_local(args[2])
+            if m is None: raise Unsupported("getln with a match argument that is not the address of a local")
+            l, sep, s1 = self.tr(args[3], s)
+            ln = self.fresh("x"); s2 = self.fresh()
+            lets = l + ["let %s := getln_line (skipn (Z.to_nat (v_%s__pos %s)) (a_%s__in %s)) (wrapu 8 %s) in" % (ln, ss, s1, ss, s1, sep),
+                        "let %s := set_v_%s (set_v_%s__pos (set_v_%s__len (set_a_%s__s %s (fst %s)) (alen (fst %s))) (v_%s__pos %s + alen (fst %s))) (b2z (snd %s)) in"
+                        % (s2, m, ss, sa, sa, s1, ln, ln, ss, s1, ln, ln)]
+            return lets, "(0)", s2
+        if nm == "unlink":
+            # oracle: the k-th call returns what the k-th element of the run parameter g_unlink__res_ says (0: removed, e > 0: -1 with
+            # errno = e; when the list is exhausted: removed); the path (a C string) is appended to the log a_unlink__log with a 0 after it
+            ensure("unlink__res", True); ensure("unlink__log", True); ensure("unlink__n", False)
+            if "errno" not in self.vtype: self.vtype["errno"] = "int"; self.vars.append("errno")
+            l, base, off, s1 = self.ptr(args[0], s)
+            if base is None: raise Unsupported("unlink of a null pointer")
+            r = self.fresh("x"); s2 = self.fresh()
+            lets = l + ["let %s := rd (a_unlink__res %s) (v_unlink__n %s) in" % (r, s1, s1),
+                        "let %s := set_v_errno (set_v_unlink__n (set_a_unlink__log %s (a_unlink__log %s ++ cstrz (skipn (Z.to_nat %s) (a_%s %s)) ++ [0])) (v_unlink__n %s + 1)) (if %s =? 0 then v_errno %s else %s) in"
+                        % (s2, s1, s1, off, base, s1, s1, r, s1, r)]
+            return lets, "(if %s =? 0 then 0 else -1)" % r, s2
+        if nm in ("substdio_put", "substdio_bput", "qmail_put", "substdio_putflush"):
             ss = io_struct(args[0]); ensure(ss + "__out", True)
             l2, n, s1 = self.tr(args[2], s)
             lit = self.str_literal(args[1]); loc = self.addr_local(args[1])
@@ -564,6 +626,9 @@ class Fn:
             # run parameter alloc_ok.  (The arithmetic of the real function, incl. its overflow tests, is Mem/Stralloc.v's.)
             sa = args[0]
             while sa.get("kind") in ("ImplicitCastExpr", "ParenExpr"): sa = sa["inner"][0]
+            if sa.get("kind") == "UnaryOperator" and sa.get("opcode") == "&":
+                # a file-scope stralloc is kept as the list of its len bytes: making room changes nothing and succeeds
+                io_struct(args[0]); l, _, s1 = self.tr(args[1], s); return l, "(1)", s1
             if sa.get("kind") != "DeclRefExpr" or sa["referencedDecl"]["name"] not in self.structs: raise Unsupported(nm + " on something that is not a struct parameter")
             p = sa["referencedDecl"]["name"]
             for f, t in (("s", "char *"), ("len", "unsigned int"), ("a", "unsigned int")):
@@ -588,6 +653,7 @@ class Fn:
         g = self.known[nm]
         lets = []; args = []; arr_args = []
         for a, p in zip(e["inner"][1:], g.params):
+            if p["name"] in getattr(g, "fnptrs", []): continue
             if p["name"] in g.structs:
                 aa = a
                 while aa.get("kind") in ("ImplicitCastExpr", "ParenExpr"): aa = aa["inner"][0]
@@ -818,6 +884,7 @@ class Fn:
         pnames = []; inits = {}
         for p in self.params:
             n = p["name"]
+            if n in getattr(self, "fnptrs", []): continue
             if n in self.structs:
                 for f in self.arrays + self.vars:
                     if f.startswith(n + "__"):
